@@ -156,10 +156,9 @@ void explicit_bzero (void *s, size_t n)
 unsigned xv_event_seq;
 
 
-/* strtoul (nptr, endptr, 10) for the way the library uses it: the caller has
-   already checked that *nptr is a digit (every call site does; anything else
-   fails an obligation here instead of being guessed), so no whitespace, sign
-   or base prefix handling is involved.  Value: Horner evaluation of the
+/* strtoul (nptr, endptr, 10): optional sign, digit run, C's "no conversion"
+   case (value 0, *endptr = nptr); leading white space is outside the model
+   (an obligation fails if it occurs).  Value: Horner evaluation of the
    digit run with C's saturation (ULONG_MAX and errno = ERANGE on overflow).
    The digit run is scanned exactly for 20 characters (ULONG_MAX has 20
    digits, so a longer run has certainly overflowed); a longer run ends at a
@@ -170,10 +169,21 @@ unsigned xv_parse_n;
 unsigned long strtoul (const char *nptr, char **endptr, int base)
 {
   __CPROVER_assert (base == 10, "strtoul model: base 10 only");
-  __CPROVER_assert (nptr[0] >= '0' && nptr[0] <= '9', "strtoul model: called on a digit (callers check this first)");
-  size_t len = 0;
-  _Bool reg = xv_str_lookup (nptr, &len);
+  size_t len0 = 0;
+  _Bool reg = xv_str_lookup (nptr, &len0);
   __CPROVER_assert (reg, "strtoul model: argument is a caller string");
+  /* leading white space is not modelled (do_crypt refuses settings that
+     contain any); an optional sign is */
+  __CPROVER_assert (len0 == 0 || !(nptr[0] == ' ' || (nptr[0] >= 9 && nptr[0] <= 13)),
+                    "strtoul model: no leading white space");
+  const char *start = nptr;
+  _Bool neg = 0;
+  if (len0 > 0 && (nptr[0] == '+' || nptr[0] == '-'))
+    {
+      neg = nptr[0] == '-';
+      nptr++;
+    }
+  size_t len = len0 - (size_t) (nptr - start);
   unsigned long acc = 0;
   _Bool ovf = 0;
   size_t nd = 0;
@@ -203,6 +213,13 @@ unsigned long strtoul (const char *nptr, char **endptr, int base)
       __CPROVER_assume (r == len || !(nptr[r] >= '0' && nptr[r] <= '9'));
       end = r;
     }
+  if (nd == 0)
+    {
+      /* no conversion: value 0, *endptr = the original nptr */
+      if (endptr)
+        *endptr = (char *) start;
+      return 0;
+    }
   if (endptr)
     *endptr = (char *) nptr + end;
   if (xv_parse_n < XV_PARSE_LOG)
@@ -211,8 +228,8 @@ unsigned long strtoul (const char *nptr, char **endptr, int base)
       xv_parse_log[xv_parse_n].nd = (unsigned) (nd < 11 ? nd : 11);
       for (unsigned i = 0; i < 10; i++)   /* XV_UNWIND 10 */
         xv_parse_log[xv_parse_n].dig[i] = dig[i];
-      xv_parse_log[xv_parse_n].v = ovf ? ULONG_MAX : acc;
-      xv_parse_log[xv_parse_n].overflow = ovf;
+      xv_parse_log[xv_parse_n].v = ovf ? ULONG_MAX : (neg ? -acc : acc);
+      xv_parse_log[xv_parse_n].overflow = ovf || neg;
       xv_parse_n++;
     }
   if (ovf)
@@ -220,5 +237,5 @@ unsigned long strtoul (const char *nptr, char **endptr, int base)
       errno = ERANGE;
       return ULONG_MAX;
     }
-  return acc;
+  return neg ? -acc : acc;
 }
